@@ -1,7 +1,8 @@
 #!/bin/sh
 # usage: runall.sh <tier> <ids...>   — runs checks sequentially, one summary line each
 TIER=$1; shift
-cd /verif
+cd "$(dirname "$0")/.." || exit 2
+mkdir -p out
 for id in "$@"; do
   S=$(date +%s)
   timeout 3000 ./check $id $TIER > out/run_$id.log 2>&1; RC=$?
